@@ -139,6 +139,22 @@ func roundTrip(c *core.Ctx, t reflect.Type, v reflect.Value) error {
 		}
 		return fmt.Errorf("%s: JSON %s parses to a different value: %v", name, trunc(string(data)), err)
 	}
+	// the bytes a MarshalJSON method hands out belong to the caller: converting other values afterwards does not
+	// change them
+	if m, ok := v.Interface().(json.Marshaler); ok {
+		first, err1 := m.MarshalJSON()
+		kept := string(first)
+		if other, gerr := genValue(c, t); gerr == nil && err1 == nil {
+			if om, ok := other.Interface().(json.Marshaler); ok {
+				for i := 0; i < 3; i++ {
+					om.MarshalJSON()
+				}
+			}
+			if string(first) != kept {
+				return fmt.Errorf("%s: the bytes returned by MarshalJSON changed from %s to %s after other values of the type were converted", name, trunc(kept), trunc(string(first)))
+			}
+		}
+	}
 	// the same document parsed into a destination that held another value of the type before (a reused
 	// variable, or an element of a reused slice: encoding/json hands such elements to UnmarshalJSON as they are)
 	if prev, gerr := genValue(c, t); gerr == nil {
